@@ -28,7 +28,7 @@ Proof.
 Qed.
 
 (* what a successful, state-changing connect does, in terms of slots *)
-Record Linked (gs gs' : gates) (a : N) (ia : sid) (b : N) (ib : sid) (ch : option N) : Prop := {
+Record Linked (gs gs' : gates) (a : N) (ia : sid) (b : N) (ib : sid) (ch : option chan) : Prop := {
   lk_ne : a <> b;
   lk_free_a : slot gs a ia = None;
   lk_free_b : slot gs b ib = None;
